@@ -186,7 +186,8 @@ def run(ctx):
     # ---- verdict -----------------------------------------------------------------
     def replay_of(flag):
         want = flag.get("trace")
-        for p, packed in [(behp, True)] + [(x, False) for x in rand_files]:
+        files = [(x, False) for x in rand_files] if str(flag.get("src", "")).startswith("random") else [(behp, True)]
+        for p, packed in files:
             key = want // 16 if packed else want
             with open(p) as fh:
                 for line in fh:
@@ -194,7 +195,7 @@ def run(ctx):
                         b = json.loads(line)
                         if b["trace"] == key:
                             b.pop("pred", None)
-                            if packed:      # keep only the flagged variant
+                            if packed and want % 16 < len(b.get("variants", [])):      # keep only the flagged variant
                                 b["variants"] = [b["variants"][want % 16]]
                             return {"family": "reassembler", "behaviour": b}
         return {"family": "reassembler", "trace": want}
